@@ -54,23 +54,22 @@ Print Assumptions C15_comma_any_blanks.
    grammar (same kinds, same names / literals / and-or), each token text being one that alone lexes
    to its kind (eq / EQ / ==, not / NOT, a blank with any newlines, a comma with any blanks, ...;
    a string text ending at its closing quote).  Then the concatenated characters lex to exactly
-   those tokens — maximal munch never merges or splits neighbours — and parse to the sentence's tree.
-   (Literals with an exponent token, INT EXP, are excluded.) *)
+   those tokens — maximal munch never merges or splits neighbours — and parse to the sentence's tree. *)
 Theorem C15_text_lexes :
-  forall c ts, wf_chain c -> map norm ts = print_chain c -> ~ In K_EXP (kinds ts) -> Forall tok_ok ts ->
+  forall c ts, wf_chain c -> map norm ts = print_chain c -> Forall tok_ok ts ->
     lex g4_lexer_rules (cat_texts ts) = Some ts.
 Proof. exact spelled_sentence_lexes. Qed.
 Print Assumptions C15_text_lexes.
 
 Theorem C15_text_parses :
-  forall c ts, wf_chain c -> map norm ts = print_chain c -> ~ In K_EXP (kinds ts) -> Forall tok_ok ts ->
+  forall c ts, wf_chain c -> map norm ts = print_chain c -> Forall tok_ok ts ->
     parse_text (cat_texts ts) = Some (erase_chain c).
 Proof. exact spelled_sentence_parses. Qed.
 Print Assumptions C15_text_parses.
 
 Theorem C15_respelling :
   forall c ts1 ts2, wf_chain c -> map norm ts1 = print_chain c -> map norm ts2 = print_chain c ->
-    ~ In K_EXP (kinds ts1) -> Forall tok_ok ts1 -> Forall tok_ok ts2 ->
+    Forall tok_ok ts1 -> Forall tok_ok ts2 ->
     parse_text (cat_texts ts1) = parse_text (cat_texts ts2).
 Proof. exact respelling_same_tree. Qed.
 Print Assumptions C15_respelling.
@@ -82,7 +81,7 @@ Theorem C15_context :
 Proof. exact context_lex. Qed.
 Print Assumptions C15_context.
 
-(* the premises hold for NOT( \n x == "a" \n\n and y IN [1,  2]) *)
+(* the premises hold for NOT( \n x == "a" \n\n and y IN [1,  2] or \n z > -1e+5) *)
 Example C15_text_example : parse_text (cat_texts ex_ts) = Some (erase_chain ex_c).
 Proof. exact ex_parses. Qed.
 
